@@ -225,6 +225,35 @@ func genC06(e *emitter, tier string, seed uint64) {
 				}
 			}
 		}
+		// ---- one CHECKMULTISIG, several signatures, each with its own hash type (every signature is verified over the
+		//      digest of *its* hash-type byte: base type, ANYONECANPAY and FORKID bits all count)
+		if sh == 0 {
+			for _, pair := range [][2]byte{{0x41, 0xc1}, {0xc1, 0x41}, {0x42, 0xc2}, {0x43, 0xc3}, {0x41, 0x42}, {0x41, 0x43}, {0x01, 0x81}, {0x82, 0x02}, {0x01, 0x03}, {0xc3, 0x41}} {
+				for _, n := range []int{2, 3} {
+					var lock []byte
+					lock = append(lock, 0x52)
+					for i := 0; i < n; i++ {
+						lock = append(lock, rawPush(keys[i].pubC)...)
+					}
+					lock = append(append(lock, smallInt(n)...), 0xae)
+					fl := 0
+					if pair[0]&0x40 != 0 {
+						fl = fForkID
+					}
+					first, second := 0, n-1
+					unlock := append([]byte{0x00}, rawPush(signFor(tx, idx, lock, sats, pair[0], keys[first], false))...)
+					unlock = append(unlock, rawPush(signFor(tx, idx, lock, sats, pair[1], keys[second], false))...)
+					note("multisig.mixed-hashtypes", ixExecTx(e, fl, unlock, lock, tx, idx, sats))
+					note("multisig.mixed-hashtypes", ixExecTx(e, fl|fAfterGenesis|fNullFail, unlock, lock, tx, idx, sats))
+					// and with the hash-type labels swapped between the two signatures (each now carries the other's byte)
+					s1 := signFor(tx, idx, lock, sats, pair[0], keys[first], false)
+					s2 := signFor(tx, idx, lock, sats, pair[1], keys[second], false)
+					s1[len(s1)-1], s2[len(s2)-1] = pair[1], pair[0]
+					bad := append(append([]byte{0x00}, rawPush(s1)...), rawPush(s2)...)
+					note("multisig.mixed-hashtypes-swapped", ixExecTx(e, fl, bad, lock, tx, idx, sats))
+				}
+			}
+		}
 		// ---- signatures whose DER integers sit on the padding boundaries: R = 00 80.. / 00 ff.. (padded), 7f.. (unpadded),
 		//      a 31-byte R or S, S = 7f..; found by stepping the lock time until the deterministic signature has the shape
 		if sh == 0 {
